@@ -355,34 +355,27 @@ theorem assoc_map_pair_eq {B : Type} (i : Fin D) (k : DKey D) (f : DKey D → B)
       have : ¬ ((i, x) = (i, k)) := fun e => hx (Prod.mk.inj e).2
       simp [assoc, this, ih hk]
 
-/-- the value `flow_derivatives` returns for `d<i>/d<k>` is the chain of derivative steps along the
-    sorted letters of `k`, applied to component `i` — whatever else is requested. -/
-theorem flowDerivatives_spec (step : Fin D → A → A) (u : Fin D → A) (which : List (FKey D)) (i : Fin D) (k : DKey D)
-    (hk : (i, k) ∈ which) (hne : k ≠ []) :
-    assoc (i, k) (flowDerivatives (fun i keys => spatialDerivativesFD step (u i) keys) which)
-      = some (some (chain step (sortKey k) (u i))) := by
+/-- generic form: whatever `spatial_derivatives` branch `sd` is used, if it returns `v` for the sorted
+    key whenever that key is requested, `flow_derivatives` returns `v` for `d<i>/d<k>`. -/
+theorem flowDerivatives_spec_gen (sd : Fin D → List (DKey D) → List (DKey D × Option A)) (which : List (FKey D))
+    (i : Fin D) (k : DKey D) (v : A) (hk : (i, k) ∈ which)
+    (hsd : ∀ keys, sortKey k ∈ keys → assoc (sortKey k) (sd i keys) = some (some v)) :
+    assoc (i, k) (flowDerivatives sd which) = some (some v) := by
   unfold flowDerivatives
   simp only
   rw [assoc_map_self _ _ (i, k) ((mem_dedupFirst (i, k) which).mpr hk)]
   congr 1
-  -- the per-component part
   set keysOf : Fin D → List (DKey D) := fun i' => (which.filter (fun q => q.1 = i')).map (·.2) with hkeys
   set val : Fin D → DKey D → Option A := fun i' k' =>
-    (assoc (sortKey k') (spatialDerivativesFD step (u i')
-      ((uniqueKeys (keysOf i')).foldr insertDKey []))).join with hval
+    (assoc (sortKey k') (sd i' ((uniqueKeys (keysOf i')).foldr insertDKey []))).join with hval
   have hmemk : k ∈ keysOf i := by
     simp only [hkeys, List.mem_map, List.mem_filter]
     exact ⟨(i, k), ⟨hk, by simp⟩, rfl⟩
-  have hv : val i k = some (chain step (sortKey k) (u i)) := by
+  have hv : val i k = some v := by
     simp only [hval]
     have hmem : sortKey k ∈ (uniqueKeys (keysOf i)).foldr insertDKey [] := by
       rw [mem_foldr_insertDKey]; unfold uniqueKeys; rw [mem_dedupFirst]; exact List.mem_map_of_mem hmemk
-    have hne' : sortKey k ≠ [] := by
-      intro e
-      have := length_sortKey k
-      rw [e] at this
-      exact hne (List.length_eq_zero_iff.mp this.symm)
-    rw [spatialDerivativesFD_spec step (u i) _ (sortKey k) hmem hne', sortKey_idem]; rfl
+    rw [hsd _ hmem]; rfl
   have hflat : ∀ l : List (Fin D), i ∈ l →
       assoc (i, k) (l.flatMap (fun i' => (keysOf i').map (fun k' => ((i', k'), val i' k')))) = some (val i k) := by
     intro l
@@ -400,6 +393,43 @@ theorem flowDerivatives_spec (step : Fin D → A → A) (u : Fin D → A) (which
   have := hflat (List.finRange D) (List.mem_finRange i)
   simp only [hkeys, hval] at this hv
   rw [this, hv]; rfl
+
+/-- the value `flow_derivatives` returns for `d<i>/d<k>` is the chain of derivative steps along the
+    sorted letters of `k`, applied to component `i` — whatever else is requested. -/
+theorem flowDerivatives_spec (step : Fin D → A → A) (u : Fin D → A) (which : List (FKey D)) (i : Fin D) (k : DKey D)
+    (hk : (i, k) ∈ which) (hne : k ≠ []) :
+    assoc (i, k) (flowDerivatives (fun i keys => spatialDerivativesFD step (u i) keys) which)
+      = some (some (chain step (sortKey k) (u i))) := by
+  refine flowDerivatives_spec_gen _ which i k _ hk ?_
+  intro keys hmem
+  have hne' : sortKey k ≠ [] := by
+    intro e
+    have := length_sortKey k
+    rw [e] at this
+    exact hne (List.length_eq_zero_iff.mp this.symm)
+  rw [spatialDerivativesFD_spec step (u i) keys (sortKey k) hmem hne', sortKey_idem]
+
+/-! ### B-spline branch: dictionary logic with the derivative values given -/
+
+/-- `spatial_derivatives(mode="bspline")` returns, for every requested key, the value computed for its
+    sorted code — whatever else is requested (no condition on the key). -/
+theorem spatialDerivativesBSpline_spec (deriv : DKey D → A) (which : List (DKey D)) (k : DKey D) (hk : k ∈ which) :
+    assoc k (spatialDerivativesBSpline deriv which) = some (some (deriv (sortKey k))) := by
+  unfold spatialDerivativesBSpline
+  simp only
+  rw [assoc_map_self _ _ k ((mem_dedupFirst k which).mpr hk)]
+  congr 1
+  have hmem : sortKey k ∈ uniqueKeys which := by
+    unfold uniqueKeys; rw [mem_dedupFirst]; exact List.mem_map_of_mem hk
+  exact assoc_map_self (fun c => deriv c) (uniqueKeys which) (sortKey k) hmem
+
+theorem flowDerivativesBSpline_spec (deriv : Fin D → DKey D → A) (which : List (FKey D)) (i : Fin D) (k : DKey D)
+    (hk : (i, k) ∈ which) :
+    assoc (i, k) (flowDerivatives (fun i keys => spatialDerivativesBSpline (deriv i) keys) which)
+      = some (some (deriv i (sortKey k))) := by
+  refine flowDerivatives_spec_gen _ which i k _ hk ?_
+  intro keys hmem
+  rw [spatialDerivativesBSpline_spec (deriv i) keys (sortKey k) hmem, sortKey_idem]
 
 end FD
 end Deepali
